@@ -1,6 +1,7 @@
 import JominiModel.Driver.Util
 import JominiModel.Driver.C15
 import JominiModel.Model.Writer
+import JominiModel.Model.WriterSink
 /-
 ops of property C14:
   wtape <indent_char> <indent_factor> <input hex> <tape> [rt]
@@ -44,6 +45,18 @@ def handle : Handler
     match writeTape toks (State.init (UInt8.ofNat ic) fac) with
     | .ok s => pure (toHex s.out)
     | .error e => pure (C15.errStr e)
+  -- wtapew <indent_char> <indent_factor> <cap> <input hex> <tape>: `write_tape` into a sink that fails after <cap> bytes
+  --   -> `<ok | error> <bytes that reached the sink>`
+  | "wtapew" :: c :: f :: cap :: _ :: tape :: _ => do
+    let ic ← c.toNat?
+    let fac ← f.toNat?
+    let cp ← cap.toNat?
+    if tape == "err" then pure "err:parse" else
+    let toks ← parseTape tape
+    let r := writeTapeF cp toks (State.init (UInt8.ofNat ic) fac)
+    match r.1 with
+    | .ok _ => pure s!"ok {toHex r.2.out}"
+    | .error e => pure s!"{C15.errStr e} {toHex r.2.out}"
   | _ => none
 
 end Jomini.Driver.C14
